@@ -30,6 +30,8 @@ pub struct MachoSpec {
     pub entries_per_page: usize,
     /// Supply the text as the whole `__TEXT` segment instead of the `__text` section.
     pub text_as_segment: bool,
+    /// (stated FDE start, offset of the FDE in `__eh_frame`), as the CFI writer lays them out.
+    pub eh_offsets: Vec<(u64, u64)>,
 }
 
 fn show_regs6(regs: &[Option<RegisterNameX86_64>]) -> String {
@@ -78,7 +80,8 @@ pub fn show_op_a64(opcode: u32) -> String {
 impl MachoSpec {
     /// `macho;<stubs>;<helper>;<text>;<funcs>;<eh>` for the Lean driver. `eh_offsets` are the
     /// section offsets the CFI writer gave the FDEs.
-    pub fn show(&self, arch: Arch, eh_offsets: &[(u64, u64)]) -> String {
+    pub fn show(&self) -> String {
+        let eh_offsets = &self.eh_offsets;
         let range = |r: &Option<(u32, u32)>| match r {
             Some((a, b)) => format!("{}-{}", hex(*a as u64), hex(*b as u64)),
             None => "0-0".into(),
@@ -103,7 +106,6 @@ impl MachoSpec {
                 .collect::<Vec<_>>()
                 .join("|"),
         };
-        let _ = arch;
         format!("macho;{};{};{};{};{}", range(&self.stubs), range(&self.stub_helper), text, funcs.join("|"), eh)
     }
 }
@@ -199,12 +201,9 @@ pub fn write_unwind_info(spec: &MachoSpec) -> Vec<u8> {
     out
 }
 
-pub struct BuiltMacho {
-    pub module: framehop::Module<Bytes>,
-    pub eh_offsets: Vec<(u64, u64)>,
-}
+pub const EH_FRAME_OFFSET: u64 = 0x10_0000;
 
-pub fn build_macho_module(arch: Arch, name: &str, m: &ModSpec, spec: &MachoSpec) -> BuiltMacho {
+pub fn build_macho_module(arch: Arch, name: &str, m: &ModSpec, spec: &MachoSpec) -> framehop::Module<Bytes> {
     let mut info: framehop::ExplicitModuleSectionInfo<Bytes> = framehop::ExplicitModuleSectionInfo {
         base_svma: m.base_svma,
         ..Default::default()
@@ -227,15 +226,14 @@ pub fn build_macho_module(arch: Arch, name: &str, m: &ModSpec, spec: &MachoSpec)
     if let Some((a, e)) = spec.stub_helper {
         info.stub_helper_svma = Some(m.base_svma + a as u64..m.base_svma + e as u64);
     }
-    let mut eh_offsets = Vec::new();
     if let Some(fdes) = &spec.eh {
-        let eh_svma = m.base_svma + 0x10_0000;
+        let eh_svma = m.base_svma + EH_FRAME_OFFSET;
         let eh = cfi::write_eh_frame(arch, fdes, PtrEnc::Abs8, eh_svma, m.base_svma, 1);
-        eh_offsets = eh.fde_offsets.clone();
+        assert_eq!(eh.fde_offsets, spec.eh_offsets);
         info.eh_frame_svma = Some(eh_svma..eh_svma + eh.bytes.len() as u64);
         info.eh_frame = Some(b(eh.bytes));
     }
-    BuiltMacho { module: framehop::Module::new(name.to_string(), m.start..m.end, m.base_avma, info), eh_offsets }
+    framehop::Module::new(name.to_string(), m.start..m.end, m.base_avma, info)
 }
 
 // ------------------------------------------------------------------------------------------
@@ -353,12 +351,14 @@ fn regs_for(arch: Arch, mask: u64, addr: u64, m: &Mach, innermost: bool) -> Regs
 pub fn run(tier: &str, seed: u64) -> Report {
     let mut rep = Report::new("macho");
     let mut p = Prng::new(seed.wrapping_mul(0xbb67_ae85_84ca_a73b).wrapping_add(9));
-    let n: u64 = if tier == "thorough" { 3000 } else { 200 };
+    let n: u64 = if tier == "thorough" { 20000 } else { 400 };
     for id in 0..n {
         let arch = if id % 2 == 0 { Arch::X64 } else { Arch::A64 };
-        match arch {
-            Arch::X64 => scenario::<X64H<MayAllocateDuringUnwind>>(&mut rep, &mut p, arch, id),
-            Arch::A64 => scenario::<A64H<MayAllocateDuringUnwind>>(&mut rep, &mut p, arch, id),
+        match (arch, id % 4 < 2) {
+            (Arch::X64, true) => scenario::<X64H<MayAllocateDuringUnwind>>(&mut rep, &mut p, arch, id),
+            (Arch::A64, true) => scenario::<A64H<MayAllocateDuringUnwind>>(&mut rep, &mut p, arch, id),
+            (Arch::X64, false) => random_history::<X64H<MayAllocateDuringUnwind>>(&mut rep, &mut p, arch, id),
+            (Arch::A64, false) => random_history::<A64H<MayAllocateDuringUnwind>>(&mut rep, &mut p, arch, id),
         }
     }
     crate::hist::flush(&mut rep);
@@ -410,7 +410,7 @@ fn scenario<H: ArchH>(rep: &mut Report, p: &mut Prng, arch: Arch, id: u64) {
         }
     }
     // FDE offsets are only known after writing; write once to learn them
-    let eh_probe = cfi::write_eh_frame(arch, &fdes, PtrEnc::Abs8, base_svma + 0x10_0000, base_svma, 1);
+    let eh_probe = cfi::write_eh_frame(arch, &fdes, PtrEnc::Abs8, base_svma + EH_FRAME_OFFSET, base_svma, 1);
     let merge = p.chance(1, 2);
     let mut entries: Vec<(u32, u32)> = Vec::new();
     for (i, f) in funcs.iter().enumerate() {
@@ -441,6 +441,7 @@ fn scenario<H: ArchH>(rep: &mut Report, p: &mut Prng, arch: Arch, id: u64) {
         compressed_pages: p.chance(1, 2),
         entries_per_page: 1 + p.below(4) as usize,
         text_as_segment: p.chance(1, 3),
+        eh_offsets: eh_probe.fde_offsets.clone(),
     };
     let m = ModSpec {
         start: base_avma + text_off,
@@ -484,6 +485,7 @@ fn scenario<H: ArchH>(rep: &mut Report, p: &mut Prng, arch: Arch, id: u64) {
     }
     op!(Op::New { u: "u0".into() });
     op!(Op::NewCache { c: "c0".into() });
+    op!(Op::NewCache { c: "c1".into() });
     op!(Op::Mod { m: "m0".into(), spec: m.clone() });
     op!(Op::Add { u: "u0".into(), m: "m0".into() });
     // ------------------------------------------------------------ ground truth walks
@@ -524,7 +526,7 @@ fn scenario<H: ArchH>(rep: &mut Report, p: &mut Prng, arch: Arch, id: u64) {
         for i in 0..truth.frames.len() {
             let fr = &truth.frames[i];
             let before = regs_for(arch, mask, fr.addr & mask, &fr.mach, i == 0);
-            let ans = op!(Op::Unwind { u: "u0".into(), c: "c0".into(), is_ra: i > 0, addr: fr.addr & mask, regs: before, mem: mem.clone() });
+            let ans = op!(Op::Unwind { u: "u0".into(), c: "c1".into(), is_ra: i > 0, addr: fr.addr & mask, regs: before, mem: mem.clone() });
             if i + 1 < truth.frames.len() {
                 let nx = &truth.frames[i + 1];
                 let ok = ans.starts_with(&format!("frame:{} ", hex(nx.addr & mask))) && sp_fp_of(arch, &ans) == Some((nx.mach.sp, nx.mach.fp));
@@ -607,6 +609,193 @@ fn scenario<H: ArchH>(rep: &mut Report, p: &mut Prng, arch: Arch, id: u64) {
     push_pending(rep, Pending { arch: arch.name().into(), hist_id: id, lines, impl_outs, cmds, truth: Vec::new(), truth_props: vec![] });
 }
 
+/// A random opcode of every kind either architecture distinguishes.
+fn random_opcode(p: &mut Prng, fde_offsets: &[u64]) -> u32 {
+    let flags = (p.below(4) as u32) << 30 | if p.chance(1, 8) { (p.below(4) as u32) << 28 } else { 0 };
+    let body: u32 = match p.below(12) {
+        0 => 0,
+        1 => 0x0100_0000 | (p.next() as u32 & 0x7fff),
+        2 => 0x0200_0000 | (1 << 16),
+        3 | 4 => 0x0200_0000 | ((p.below(40) as u32) << 16) | ((p.below(7) as u32) << 10) | (p.next() as u32 & 0x3ff),
+        5 => 0x0200_0000 | ((p.next() as u32 & 0xff) << 16) | (p.next() as u32 & 0x1fff),
+        6 => 0x0300_0000 | ((p.below(24) as u32) << 16) | ((p.below(8) as u32) << 13) | ((p.below(7) as u32) << 10) | (p.next() as u32 & 0x3ff),
+        7 | 8 => {
+            let off = match p.below(4) {
+                0 => 0,
+                1 => 0xff_fff0,
+                _ => fde_offsets.get(p.below(fde_offsets.len().max(1) as u64) as usize).cloned().unwrap_or(0x40),
+            };
+            (if p.chance(1, 2) { 0x0400_0000 } else { 0x0300_0000 }) | off as u32
+        }
+        9 => 0x0400_0000 | (p.next() as u32 & 0xfff),
+        10 => ((5 + p.below(11)) as u32) << 24,
+        _ => 0x0200_0000 | ((p.below(0x1000) as u32) << 12),
+    };
+    (body & 0x0fff_ffff) | (flags & 0xf000_0000)
+}
+
+/// Random compact unwind tables (every opcode kind, valid and invalid operands, text present,
+/// partial or absent) looked up at random addresses with random thread states, compared with
+/// the model answer by answer.
+fn random_history<H: ArchH>(rep: &mut Report, p: &mut Prng, arch: Arch, id: u64) {
+    let text_off = *p.pick(&[0x1000u64, 0x1000, 0x4000, 0]);
+    let n_funcs = 1 + p.below(6) as usize;
+    let mut funcs: Vec<Func> = Vec::new();
+    let mut start = 0u64;
+    for _ in 0..n_funcs {
+        let shape = *p.pick(&[Shape::FramePointer, Shape::Frameless, Shape::Leaf]);
+        let nc = p.below(2) as usize;
+        let mut f = gen_func(p, arch, shape, false, start, nc, false);
+        macho_flavour(&mut f);
+        start += f.len();
+        funcs.push(f);
+    }
+    let mut text: Vec<u8> = Vec::new();
+    for f in &funcs {
+        text.extend_from_slice(&f.bytes());
+    }
+    // some scenarios replace the code by structured noise
+    if p.chance(1, 4) {
+        let n = text.len() / 4 + 1;
+        text = structured(p, arch, n);
+        text.truncate(start as usize);
+        while (text.len() as u64) < start {
+            text.push(0x90);
+        }
+    }
+    let base_avma: u64 = *p.pick(&[0x1_0000_0000u64, 0x7fff_2000_0000, 0x40_0000]);
+    let base_svma: u64 = *p.pick(&[0x1_0000_0000u64, 0, 0x1000]);
+    let mut fdes: Vec<FdeSpec> = Vec::new();
+    for f in &funcs {
+        if p.chance(1, 2) {
+            continue;
+        }
+        fdes.push(FdeSpec {
+            start: base_svma + text_off + f.start,
+            len: f.len(),
+            rows: if p.chance(1, 3) { vec![(0, crate::gen::gen_row(p, arch))] } else { f.fde_rows() },
+            eval_fails: false,
+            pac: f.pac,
+        });
+    }
+    let with_eh = !fdes.is_empty() && p.chance(5, 6);
+    let eh_probe = cfi::write_eh_frame(arch, &fdes, PtrEnc::Abs8, base_svma + EH_FRAME_OFFSET, base_svma, 1);
+    let offs: Vec<u64> = eh_probe.fde_offsets.iter().map(|x| x.1).collect();
+    let mut entries: Vec<(u32, u32)> = Vec::new();
+    let first_gap = if p.chance(1, 3) && funcs[0].len() > 4 { 4 } else { 0 };
+    for (i, f) in funcs.iter().enumerate() {
+        if i > 0 && p.chance(1, 5) {
+            continue; // covered by the previous entry
+        }
+        let a = (text_off + f.start) as u32 + if i == 0 { first_gap } else { 0 };
+        entries.push((a, random_opcode(p, &offs)));
+    }
+    let text_end = (text_off + start) as u32;
+    let stubs = match p.below(3) {
+        0 => None,
+        _ => Some((text_end, text_end + 0x30)),
+    };
+    let helper = match p.below(3) {
+        0 => None,
+        _ => Some((text_end + 0x30, text_end + 0x70)),
+    };
+    if p.chance(1, 2) {
+        entries.push((text_end, 0));
+    }
+    entries.push((text_end + 0x100, 0)); // end marker
+    // text: complete, absent, truncated, or starting after the first function
+    let text_spec = match p.below(6) {
+        0 => None,
+        1 => {
+            let keep = p.below(text.len() as u64 + 1) as usize;
+            Some((text_off as u32, text[..keep].to_vec()))
+        }
+        2 if funcs.len() > 1 => {
+            let skip = funcs[1].start as usize;
+            Some(((text_off as usize + skip) as u32, text[skip..].to_vec()))
+        }
+        _ => Some((text_off as u32, text.clone())),
+    };
+    let mspec = MachoSpec {
+        entries: entries.clone(),
+        stubs,
+        stub_helper: helper,
+        text: text_spec,
+        eh: if with_eh { Some(fdes) } else { None },
+        compressed_pages: p.chance(1, 2),
+        entries_per_page: 1 + p.below(4) as usize,
+        text_as_segment: p.chance(1, 3),
+        eh_offsets: eh_probe.fde_offsets.clone(),
+    };
+    let m = ModSpec {
+        start: base_avma + text_off,
+        end: base_avma + text_end as u64 + 0x180,
+        base_avma,
+        base_svma,
+        data: DataSpec::Macho(mspec),
+        enc: PtrEnc::Abs8,
+        hdr_abs: true,
+        dbg_version: 4,
+        n_cies: 1,
+    };
+    let mut w: World<H> = World::new();
+    let n_slots = crate::hist::cache_entry_count();
+    let mut lines = vec![w.init_line(0, n_slots)];
+    let mut impl_outs = vec!["ok".to_string()];
+    let mut cmds = vec!["init".to_string()];
+    let mut run_op = |w: &mut World<H>, rep: &mut Report, o: Op| {
+        let idx = lines.len() as u64;
+        let line = o.line(idx);
+        let cmd = line.split(' ').next().unwrap().to_string();
+        let (ans, obs) = w.exec(&o);
+        if let Some(loc) = &obs.panicked {
+            rep.add_finding(Finding {
+                props: vec!["C09".into(), "C14".into()],
+                kind: "oracle".into(),
+                key: format!("macho-panic-{}", loc.split(':').take(2).collect::<Vec<_>>().join(":").rsplit('/').next().unwrap_or("?")),
+                what: format!("{cmd} panicked at {loc}"),
+                case: format!("{}\n{line}", lines.join("\n")),
+                impl_out: "panic".into(),
+                model_out: String::new(),
+            });
+        }
+        lines.push(line);
+        cmds.push(cmd);
+        impl_outs.push(ans);
+    };
+    run_op(&mut w, rep, Op::New { u: "u0".into() });
+    run_op(&mut w, rep, Op::NewCache { c: "c0".into() });
+    run_op(&mut w, rep, Op::Mod { m: "m0".into(), spec: m.clone() });
+    run_op(&mut w, rep, Op::Add { u: "u0".into(), m: "m0".into() });
+    let mut addrs: Vec<u64> = Vec::new();
+    for w2 in entries.windows(2) {
+        let (a, b) = (w2[0].0 as u64, w2[1].0 as u64);
+        addrs.extend_from_slice(&[a, a + 1, a + 4, b - 1, a + (b - a) / 2]);
+    }
+    for f in &funcs {
+        for i in 0..f.insns.len() {
+            addrs.push(text_off + f.start + f.offset_of(i));
+        }
+    }
+    addrs.extend_from_slice(&[text_end as u64, text_end as u64 + 0x2f, text_end as u64 + 0x30, text_end as u64 + 0x47, text_end as u64 + 0x6f, text_end as u64 + 0x70, text_end as u64 + 0x17f, text_off, text_off + 8]);
+    let n_ops = 12 + p.below(20);
+    for _ in 0..n_ops {
+        let rel = *p.pick(&addrs);
+        let addr = base_avma + rel;
+        let is_ra = p.chance(1, 3);
+        let regs = crate::gen::gen_regs(p, arch, addr);
+        let mem = crate::gen::gen_mem(p, &regs);
+        if p.chance(1, 6) {
+            run_op(&mut w, rep, Op::Iter { u: "u0".into(), c: "c0".into(), pc: addr, regs, mem, extra: 0, max: 12 });
+        } else {
+            run_op(&mut w, rep, Op::Unwind { u: "u0".into(), c: "c0".into(), is_ra, addr, regs, mem });
+        }
+    }
+    drop(run_op);
+    rep.count(&format!("{} random compact-unwind histories", arch.name()));
+    push_pending(rep, Pending { arch: arch.name().into(), hist_id: id, lines, impl_outs, cmds, truth: Vec::new(), truth_props: vec![] });
+}
+
 fn sp_fp_of(arch: Arch, ans: &str) -> Option<(u64, u64)> {
     match arch {
         Arch::X64 => {
@@ -624,7 +813,19 @@ fn sp_fp_of(arch: Arch, ans: &str) -> Option<(u64, u64)> {
 
 /// arm64e flavour: return address signing uses `pacibsp` ... `retab` (what the analysers know).
 fn macho_flavour(f: &mut Func) {
+    // Apple's ABI puts the frame record at the top of the frame (fp + 16 is the caller's sp)
+    for ins in f.insns.iter_mut() {
+        match ins.eff {
+            Eff::StpFpLrPre(n) if n != 16 => *ins = Insn { bytes: 0xa9bf7bfdu32.to_le_bytes().to_vec(), eff: Eff::StpFpLrPre(16) },
+            Eff::LdpFpLrPost(n) if n != 16 => *ins = Insn { bytes: 0xa8c17bfdu32.to_le_bytes().to_vec(), eff: Eff::LdpFpLrPost(16) },
+            _ => {}
+        }
+    }
+    let is_a64 = f.insns.iter().all(|i| i.bytes.len() == 4);
     if !f.pac {
+        if is_a64 && f.insns.iter().any(|i| matches!(i.eff, Eff::StpFpLrPre(_))) {
+            f.rows = crate::prog::compute_rows(Arch::A64, f);
+        }
         return;
     }
     let mut out = Vec::new();
@@ -641,7 +842,7 @@ fn macho_flavour(f: &mut Func) {
     // indices of calls and rows shift: recompute
     f.insns = out;
     f.calls = f.insns.iter().enumerate().filter(|(_, i)| i.eff == Eff::Call).map(|(k, _)| k).collect();
-    f.rows = crate::prog::compute_rows_pub(Arch::A64, f);
+    f.rows = crate::prog::compute_rows(Arch::A64, f);
 }
 
 // ------------------------------------------------------------------------------------------
@@ -660,7 +861,8 @@ pub fn run_ana(tier: &str, seed: u64) -> Report {
         let text: Vec<u8> = match p.below(4) {
             0 | 1 => {
                 let shape = *p.pick(&[Shape::FramePointer, Shape::Frameless, Shape::Leaf]);
-                let mut f = gen_func(&mut p, arch, shape, false, 0, p.below(2) as usize, false);
+                let nc = p.below(2) as usize;
+                let mut f = gen_func(&mut p, arch, shape, false, 0, nc, false);
                 macho_flavour(&mut f);
                 let mut t = Vec::new();
                 if p.chance(1, 2) {
@@ -671,7 +873,10 @@ pub fn run_ana(tier: &str, seed: u64) -> Report {
                 t.extend_from_slice(&f.bytes());
                 t
             }
-            2 => structured(&mut p, arch, 4 + p.below(12) as usize),
+            2 => {
+                let n = 4 + p.below(12) as usize;
+                structured(&mut p, arch, n)
+            }
             _ => (0..(p.below(40) + 1)).map(|_| p.next() as u8).collect(),
         };
         let pc = match p.below(8) {
